@@ -364,6 +364,9 @@ fn run_inner(hist: &[Op]) -> Outcome {
             if cs.is_empty() {
                 viol!(i, "{} returned a guard without a chunk", op.text());
             }
+            if !std::ptr::eq(g.pool(), pool_box as *const BumpPool<Track>) {
+                viol!(i, "{}: the guard's pool() is not the pool it was taken from", op.text());
+            }
             for (j, other) in guards.iter().enumerate() {
                 if !chunks_of(other).is_disjoint(&cs) {
                     viol!(i, "{} handed out the arena that live guard {j} already owns", op.text());
